@@ -1,7 +1,7 @@
 """C18 Trace context follows the request, and only that request — E-PROV."""
 from engine.facts import CannotDecide, callee_is, path_matches
 from engine import cfg
-from .common import Table, client_dispatch_poll, reachable_local_fns, norm_path
+from .common import Table, client_dispatch_poll, reachable_local_fns, norm_path, message_send_sites
 
 META = {
     'level': 'other',
@@ -128,20 +128,21 @@ def run(ctx):
     poll = client_dispatch_poll(F)
     reach = reachable_local_fns(F, poll)
     R.count('functions_analysed', len(reach) + len(bodies))
-    reqs = [(g, i, j, s) for g, i, j, s in F.all_aggregates('ClientMessage', 'Request') if any(g.id == x.id for x in reach)]
     insert_m = table.one(table.inserting(), 'inserting')
     ctx_param = [k for k in range(1, insert_m.argc + 1) if insert_m.local_ty(k).endswith('context::Context')]
     if len(ctx_param) != 1:
         raise CannotDecide('client table insert: context parameter')
     ctx_param = ctx_param[0]
-    for g, i, j, s in reqs:
-        inner = P._field(('agg', g.id, i, j), '0')
+    rsends = message_send_sites(F, P, reach, 'Request')
+    R.ob('C18.wire', ('dispatch poll', 'request send site'), len(rsends) >= 1, 'the dispatch writes requests', [g.loc(t) for g, _, t, _ in rsends] or [poll.loc(poll.d)])
+    for g, sbb, st_, agg in rsends:
+        inner = P._field(agg, '0')
         wire_tc = P.root(P._field(P._field(inner, 'context'), ctx_tc))
         wire_id = P.root(P._field(inner, 'id'))
         ok = bool(wire_tc) and all(P.is_call(r, 'mpsc::Receiver::poll_recv') and P.fpath(p)[-2:] == (dr_ctx_field, ctx_tc) for r, p in wire_tc)
         same_item = {r for r, _ in wire_tc} == {r for r, _ in wire_id}
         R.ob('C18.wire', ('dispatch poll', 'request carries the queued trace context'), ok and same_item,
-             'the trace context written into the request is that of the same dequeued call as the request id', [g.loc(s)],
+             'the trace context written into the request is that of the same dequeued call as the request id', [g.loc(st_)],
              str([P.describe(r) + str(list(norm_path(p))) for r, p in wire_tc]))
         for bb, t in g.calls():
             if F.callee_fn(t) is insert_m:
@@ -158,11 +159,11 @@ def run(ctx):
             rs = P.root(P._field(('agg', m.id, i, j), cf[0]))
             R.ob('C18.wire', ('client table insert', 'stores its context parameter'), bool(rs) and all(r == ('param', insert_m.id, ctx_param) and not P.fpath(p) for r, p in rs),
                  'the table entry holds the context it was given', [m.loc(s)])
-    cancels = [(g, i, j, s) for g, i, j, s in F.all_aggregates('ClientMessage', 'Cancel')]
-    R.ob('C18.cancel', ('client', 'cancel constructor sites'), len(cancels) == 1 and any(cancels[0][0].id == x.id for x in reach),
-         'exactly one site builds a cancel message, inside the dispatch', [g.loc(s) for g, _, _, s in cancels] or [poll.loc(poll.d)])
-    for g, i, j, s in cancels:
-        agg = ('agg', g.id, i, j)
+    csends = message_send_sites(F, P, reach, 'Cancel')
+    n_ctor = len(list(F.all_aggregates('ClientMessage', 'Cancel')))
+    R.ob('C18.cancel', ('client', 'cancel constructor sites'), len(csends) == 1 and n_ctor == 1,
+         'exactly one site builds a cancel message, and the dispatch writes it', [g.loc(t) for g, _, t, _ in csends] or [poll.loc(poll.d)])
+    for g, sbb, s, agg in csends:
         tcr = P.root(P._field(agg, 'trace_context'))
         idr = P.root(P._field(agg, 'request_id'))
         ok = bool(tcr) and all(P.is_call(r, 'HashMap::remove', 'HashMap::remove_entry') and P.fpath(p)[-1:] == (ctx_tc,) for r, p in tcr)
